@@ -12,6 +12,51 @@ Z3_BIN = shutil.which("z3-new") or shutil.which("z3")
 CVC5_BIN = shutil.which("cvc5")
 
 
+_const_cache = {}
+
+
+def consts_of(t):
+    """Names of the uninterpreted constants (arity 0) of a term; cached by term id."""
+    k = t.get_id()
+    r = _const_cache.get(k)
+    if r is None:
+        r = set()
+        stack, seen = [t], set()
+        while stack:
+            x = stack.pop()
+            i = x.get_id()
+            if i in seen:
+                continue
+            seen.add(i)
+            if z3.is_quantifier(x):
+                stack.append(x.body())
+                continue
+            if z3.is_app(x):
+                if x.num_args() == 0 and x.decl().kind() == z3.Z3_OP_UNINTERPRETED:
+                    r.add(x.decl().name())
+                else:
+                    stack.extend(x.children())
+        _const_cache[k] = r
+    return r
+
+
+def slice_pc(pc, goal):
+    """Cone of influence: keep the assumptions connected to the goal through shared constants.
+    Dropping assumptions is sound for a validity proof (fewer hypotheses); callers fall back to the full set."""
+    rel = set(consts_of(goal))
+    cs = [consts_of(p) for p in pc]
+    keep = [not c for c in cs]          # closed facts (axioms) always stay
+    changed = True
+    while changed:
+        changed = False
+        for i, c in enumerate(cs):
+            if not keep[i] and c & rel:
+                keep[i] = True
+                rel |= c
+                changed = True
+    return [p for p, k in zip(pc, keep) if k]
+
+
 def to_smt2(pc, goal):
     s = z3.Solver()
     for p in pc:
@@ -59,13 +104,36 @@ def solve_all(obls, budget, jobs=None, cross=False):
     """obls: list of engine.Obl -> list of result dicts (same order)."""
     jobs = jobs or min(16, os.cpu_count() or 4)
     texts = [to_smt2(o.pc, o.goal) for o in obls]
+    sliced = [None] * len(obls)
+    for i, o in enumerate(obls):
+        if o.kind != "canary" and not o.kind.startswith("cover.") and len(o.pc) > 40:
+            sp = slice_pc(o.pc, o.goal)
+            if len(sp) < 0.8 * len(o.pc):
+                sliced[i] = to_smt2(sp, o.goal)
 
     def work(i):
         if obls[i].kind == "canary" or obls[i].kind.startswith("cover."):
             # expected SAT; only z3, short budget (an unknown here is simply 'not refuted on this path')
-            rr, dt, _ = _run([Z3_BIN, "-in", "-T:3"], texts[i], 3)
+            rr, dt, _ = _run([Z3_BIN, "-in", "-T:%d" % min(budget, 8)], texts[i], min(budget, 8))
             return {"result": rr if rr in ("sat", "unsat") else "unknown", "backend": "z3", "seconds": dt}
-        r = solve_one(texts[i], budget)
+        r = None
+        if sliced[i] is not None:
+            # first try with the assumptions in the goal's cone of influence only; unsat there is unsat in full
+            rr, dt, _ = _run([Z3_BIN, "-in", "-T:%d" % min(budget, 5)], sliced[i], min(budget, 5))
+            if rr == "unsat":
+                r = {"result": "unsat", "backend": "z3", "seconds": dt, "sliced": True}
+        if r is None:
+            r = solve_one(texts[i], budget)
+        if r["result"] not in ("sat", "unsat") and z3.is_implies(obls[i].goal):
+            # goal P => Q on a path where P cannot hold: pc /\ P unsat discharges it (the solvers often miss this
+            # once the negated conclusion is added)
+            sv = z3.Solver()
+            for p_ in obls[i].pc:
+                sv.add(p_)
+            sv.add(obls[i].goal.arg(0))
+            rr, dt, _ = _run([Z3_BIN, "-in", "-T:%d" % budget], sv.to_smt2(), budget)
+            if rr == "unsat":
+                r = {"result": "unsat", "backend": "z3(premise infeasible on this path)", "seconds": r["seconds"] + dt}
         if cross and r["result"] in ("sat", "unsat") and CVC5_BIN:
             other = "cvc5" if r["backend"].startswith("z3") else "z3"
             if other == "cvc5":
